@@ -72,6 +72,9 @@ func ifaceVal(kind string, seed int) interface{} {
 		return map[string]int{"a": seed, "b": seed + 1}
 	case "unregistered":
 		return Unregistered{X: seed}
+	case "nilptr":
+		// A typed nil pointer held in the interface parameter.
+		return (*ArgPtr)(nil)
 	}
 	return nil
 }
@@ -142,7 +145,9 @@ func renderIface(v interface{}) string {
 		return "struct" + renderStruct(&x, 0)
 	case *ArgPtr:
 		if x == nil {
-			return "ptr<nil>"
+			// gob has no representation for a typed nil inside an interface: a nil
+			// pointer is required to arrive as a nil, of whatever type.
+			return "<nil>"
 		}
 		return fmt.Sprintf("ptr{A:%d B:%q M:%s}", x.A, x.B, renderMap(x.M))
 	case []int:
